@@ -1,5 +1,6 @@
 /- histories of Apply / Update (domain `upd`) -/
 import Driver.Typed
+import SMD.Model.UpdaterOrd
 open SMD SMD.Wire
 namespace Driver
 
@@ -39,80 +40,6 @@ def pIgnore : P (Option Filter)
     (pMany pPrefixPattern ';' cs []).map fun (pats, r) =>
       (some (.include (SetMatcher.mergeAll (pats.map SetMatcher.ofPrefix))), r)
   | _ => none
-
-/-! ### iteration order of `managedAtVersion` as an explicit parameter
-
-`addBackOwnedItems` ranges over a Go map of versions; the versions other than the pruned one are
-visited in an order Go picks at random, and the result can depend on it (finding D10).  The driver
-therefore evaluates `Apply` for every order: `applyOrd perm` is `SMD.apply` with the remaining versions
-reordered by `perm` (`applyOrd id = apply`, checked at run time on every step). -/
-
-def addBackOwnedOrd (perm : List (String × SetTrie) → List (String × SetTrie)) (u : Updater) (sc : Schema)
-    (merged pruned : TV) (prunedVersion : String) (managers : Managed) : Outcome TV :=
-  let mav := managedAtVersion managers
-  let first : Outcome (TV × TV) :=
-    match mav.find? (·.1 == prunedVersion) with
-    | some (_, managed) => addBackForVersion u sc merged pruned prunedVersion managed
-    | none => .ok (merged, pruned)
-  let rest := perm (mav.filter (·.1 != prunedVersion))
-  let r := rest.foldl (fun (acc : Outcome (TV × TV)) (vm : String × SetTrie) =>
-    match acc with
-    | .ok (merged, pruned) => addBackForVersion u sc merged pruned vm.1 vm.2
-    | e => e) first
-  match r with
-  | .ok (_, pruned) => .ok pruned
-  | .conflict c => .conflict c
-  | .err => .err
-  | .panic => .panic
-
-def pruneOrd (perm : List (String × SetTrie) → List (String × SetTrie)) (u : Updater) (sc : Schema) (merged : TV)
-    (managers : Managed) (applyingManager : String) (lastSet : Option VersionedSet) : Outcome TV :=
-  match lastSet with
-  | none => .ok merged
-  | some last =>
-    if last.set.isEmpty then .ok merged
-    else
-      match u.converter.convert merged last.version with
-      | .missing => .ok merged
-      | .fail => .err
-      | .ok convertedMerged =>
-        let pruned := removeItemsTV sc convertedMerged (last.set.ensureNamed sc convertedMerged.type)
-        match addBackOwnedOrd perm u sc convertedMerged pruned last.version managers with
-        | .ok pruned =>
-          (match addBackDangling u sc convertedMerged pruned last with
-           | .ok pruned =>
-             let v := ((mfGet managers applyingManager).map (·.version)).getD last.version
-             (match u.converter.convert pruned v with
-              | .ok tv => .ok tv
-              | .missing => .err
-              | .fail => .err)
-           | e => e)
-        | e => e
-
-def applyOrd (perm : List (String × SetTrie) → List (String × SetTrie)) (u : Updater) (sc : Schema) (live config : TV)
-    (version : String) (managers : Managed) (manager : String) (force : Bool) : Outcome (Option TV × Managed) :=
-  match reconcileManaged u sc live managers with
-  | .ok managers =>
-    liftRes (mergeTV sc live config) fun newObject =>
-    let lastSet := mfGet managers manager
-    liftRes (toFieldSet sc config) fun set =>
-    let set := applyIgnore u version set
-    let managers := mfSet managers manager ⟨set, version, true⟩
-    (match pruneOrd perm u sc newObject managers manager lastSet with
-     | .ok newObject =>
-       (match updateCore u sc live newObject version managers manager force with
-        | .ok (managers, _) =>
-          if !u.returnInputOnNoop && Value.equals live.value newObject.value then .ok (none, managers)
-          else .ok (some newObject, managers)
-        | .conflict c => .conflict c
-        | .err => .err
-        | .panic => .panic)
-     | .conflict c => .conflict c
-     | .err => .err
-     | .panic => .panic)
-  | .conflict c => .conflict c
-  | .err => .err
-  | .panic => .panic
 
 /-- all permutations of a (short) list -/
 def perms {α : Type} : List α → List (List α)
